@@ -245,10 +245,9 @@ def sparc_rd_(obj, rd, rs1, _src):
     obj.type = type_other
 
 @ispec("32[ 10 00000 101000 01111 - ------------- ]", mnemonic="stbar")
-def sparc_rd_(obj, _src):
-    _src == env.y
-    dst = env.r[rd]
-    obj.operands = [_src, dst]
+def sparc_rd_(obj):
+    # store barrier: no operand
+    obj.operands = []
     obj.type = type_other
 
 @ispec(
